@@ -224,7 +224,8 @@ def check_history(ctx, h, uni):
                 ok = x in ever or any(d in ever and x in uni.listing(d) for d in uni.trees)
                 ctx.oracle(ok, case, {"why": "the remote index holds an identifier that was never delivered nor listed by a delivered directory",
                                       "step": n, "id": x, "ever_in_store": sorted(ever)})
-            if st["op"] == "status":
+            if st["op"] == "status" and any(o.endswith(".dir") for o in st["req"]):
+                # the index is validated (and cleared when stale) whenever a directory is queried
                 for d in dump["dirs"]:
                     ctx.oracle(d in now, case, {"why": "after a status query the index still holds a directory that is not in the store",
                                                 "step": n, "dir": d})
